@@ -178,18 +178,23 @@ def trimLeftStr (t : String) : String := String.ofList (trim t.toList)
     a counter whose representation is looked up (`counters[name]` never fails: a missing counter is created with
     value 0; that side effect on the store is not modelled, the value read is).  Unknown macro -> `KeyError` (the model's domain is closed
     under the `the…` macros that `newcounter`/`newtheorem`/the classes define). -/
+def isMacroRef (self name : Name) : Bool :=
+  -- `name.startswith('the') and name != re.sub(r'^the', '', self.__class__.__name__)`
+  name.startsWith "the" && name != (self.drop 3).toString
+
+/-- the regex callback `counterValue(m)` for one piece; `invoke` is what invoking another `\the…` macro does -/
+def evalPiece (invoke : Name → Except Err String) (s : Store) (self : Name) : Piece → Except Err String
+  | .lit t => pure t
+  | .ref name fmt =>
+    if isMacroRef self name then invoke name else represent (valD s name) (fmt.getD "arabic")
+
 def evalThe : Nat → TheEnv → Store → Name → Except Err String
   | 0, _, _, _ => .error .recursionError
   | f + 1, env, s, self =>
     match env.lookup self with
     | none => .error .keyError
     | some d => do
-      let parts ← d.pieces.mapM (fun p =>
-        match p with
-        | .lit t => pure t
-        | .ref name fmt =>
-          if name.startsWith "the" && name != (self.drop 3).toString then evalThe f env s name
-          else represent (valD s name) (fmt.getD "arabic"))
+      let parts ← d.pieces.mapM (evalPiece (evalThe f env s) s self)
       let t := String.join parts
       pure (if d.trimLeft then trimLeftStr t else t)
 
